@@ -40,6 +40,38 @@ CHECKS = {
          "Trusted: TLC; the reference node's SeekStorage dump as 'what contract storage held after block h' (its ordering is itself checked, "
          "RefSorted); retention rule per configuration (only retained heights are judged); bounded find judged under its documented semantics.",
          "TLC trace validation of reads through state roots against the flat-storage reference; TLC-generated schedules on real replicas"),
+ "C16": ("model_checking",
+         "TLC checks exhaustively that the code-shaped model FlagsImpl (SyscallHandler flag check, Contract.Call -> callInternal -> callExFromNative, "
+         "CallFromNative, LoadScript, gated effects; named deviations BugNoIntersect/BugNoSafeStrip/BugPutNoCheck) satisfies the abstract predicates of "
+         "Flags (FlagsShrink, EnterConfined, EffectImpliesFlag, SafeNeverWrites, EndToEnd, CallEndToEnd) for all 16 root flag sets and 3 (thorough 4) "
+         "nested calls. TLC enumerates every call chain of <=3 hops x 16 requested flag sets x safe/non-safe (33,824 chains) with the specified answers; "
+         "each chain x 5 probe operations runs on the real engine; all 41 system calls and all 125 native methods (+9 variants) run under 16 flag sets x 6-7 "
+         "positions of the restricting set; seeded random chains of 3-6 hops and real block transactions are added. Every invocation is judged by TLC "
+         "(FlagsTrace) on the flags read from the real vm.Context objects, the storage diff of the invocation's own DAO layer and the notification list. "
+         "Permissions: TLC enumerates 6,312 (manifest, callee, method) cases and checks Impl = Abstract; each is realised by deployed contracts through "
+         "System.Contract.Call and CALLT, and by Manifest.CanCall / Permission.IsAllowed on manifests read back from the chain; the spec is the oracle.",
+         "DESIGN.md section 4 C16",
+         "Trusted: TLC; the instruction hook reading real flags and stacks; attribution of an effect to the frame that executed the previous instruction; "
+         "emit-built probe contracts and argument builders (39 of 41 non-safe native calls reach a write/notification under full flags; the two bare "
+         "onNEP17Payment entries are reached through GAS.transfer variants). Single-validator neotest chain, Application trigger, all hardforks on. "
+         "Verdict direction: observed effect => flag present, real call allowed => spec allows; the converse is drift.",
+         "two-level TLA+ spec; TLC exhaustive Impl=>Abstract; TLC case enumeration replayed on the real engine; TLC trace validation of per-context flag/effect records"),
+ "C18": ("model_checking",
+         "PARTIAL (parallel multisig, Merkle root, VM integer codec). Multisig: TLC explores every interleaving of main loop, 3 workers, task channel "
+         "(capacity 2) and result channel of vm.CheckMultisigPar for every realisable validity matrix with n<=5 keys (repeats allowed), m<=4 signatures and "
+         "every boolean matrix with n,m<=4: answer = OrderedMatch, no deadlock, termination. All 21,456 delivery orders for n<=4 (sample for n=5) are "
+         "replayed on the real vm.CheckMultisigPar with real P-256 keys/signatures, results released one at a time through the vm.VerifMultisigGate hook "
+         "inside a testing/synctest bubble (hangs decided without sleeps), plus free-running calls, the System.Crypto.CheckMultisig script and random "
+         "universes up to 12 keys / 8 signatures; every run judged by TLC against the validity matrix measured with real PublicKey.Verify. Merkle: in-place "
+         "model = recursive definition for lengths 0..40 (thorough 0..260); printed root terms evaluated with SHA-256 and compared with hash.CalcMerkleRoot, "
+         "NewMerkleTree().Root(), block.ComputeMerkleRoot/RebuildMerkleRoot. Integer codec: Enc checked against the abstract definition on boundary values "
+         "up to 34 bytes and exhaustively on short strings / small values; real bigint.ToBytes/FromBytes, stackitem.BigInteger.Bytes(), VM CONVERT and "
+         "emit.BigInt judged by TLC (denotation, minimality, round trip, normalisation, input preserved).",
+         "DESIGN.md section 4 C18",
+         "NOT addressed (outside the studied family): sign/verify algebra, RFC 6979 reproducibility, WIF/NEP-2, Base58Check, address/Uint160/Uint256/Fixed8 "
+         "string codecs. Trusted: TLC, Go's testing/synctest for quiescence, crypto/sha256, math/big readback, the gate hook sitting before "
+         "verify-and-deliver; the hash is injective in the Merkle model; the validity matrix is taken from the real Verify.",
+         "TLC exhaustive interleavings; gate-hook replay of TLC delivery orders on the real checker; TLC trace validation; spec-as-oracle enumeration"),
 }
 
 NOT_YET = {}   # id -> reason (properties not (yet) claimed)
